@@ -175,15 +175,41 @@ fn scale_of(name: &str, cs: &[C5], upto: usize) -> f64 {
 	m.max(1.0)
 }
 
-fn values_close(a: &IndicatorResult, b: &IndicatorResult, tol: f64) -> Option<usize> {
+/// indicators whose values are quotients of averaged (or summed) quantities
+const RATIO_VALUED: [&str; 16] = [
+	"AverageDirectionalIndex",
+	"RelativeVigorIndex",
+	"RelativeStrengthIndex",
+	"ChandeMomentumOscillator",
+	"MoneyFlowIndex",
+	"ChaikinMoneyFlow",
+	"CommodityChannelIndex",
+	"WoodiesCCI",
+	"TrueStrengthIndex",
+	"SMIErgodicIndicator",
+	"StochasticOscillator",
+	"FisherTransform",
+	"KnowSureThing",
+	"CoppockCurve",
+	"TrendStrengthIndex",
+	"EaseOfMovement",
+];
+
+fn values_close(name: &str, a: &IndicatorResult, b: &IndicatorResult, tol: f64) -> Option<usize> {
+	let ratio = RATIO_VALUED.contains(&name);
 	a.values().iter().zip(b.values().iter()).position(|(p, q)| {
 		let (p, q) = (*p as f64, *q as f64);
 		if p.is_nan() || q.is_nan() {
 			return !(p.is_nan() && q.is_nan());
 		}
 		// ratios of averages are scale-free and their conditioning is not bounded by the input magnitude:
-		// a relative floor keeps gross (seeding-type) deviations visible without raising alarms on them
-		!(p == q || (p - q).abs() <= tol || (p - q).abs() <= 1e-6 * (1.0 + p.abs().max(q.abs())))
+		// a relative floor keeps gross (seeding-type) deviations visible without raising alarms on them.
+		// A quotient n/d with a bounded numerator answers a perturbation of d with |n/d|^2 * delta / |n|:
+		// a large value *is* the sign of a small denominator (ADX with an overshooting average of the true
+		// range: DI = 181), so for ratio-valued indicators the floor grows with the square of the value.
+		let m = p.abs().max(q.abs());
+		let floor = if ratio { 1e-6 * (1.0 + m) * m.max(1.0) } else { 1e-6 * (1.0 + m) };
+		!(p == q || (p - q).abs() <= tol || (p - q).abs() <= floor)
 	})
 }
 
@@ -230,7 +256,7 @@ fn run_indicator(c: &IConst, st: &mut Stats) -> CaseResult {
 		}
 		let s = scale0.max(reference.values().iter().fold(0.0f64, |m, x| m.max((*x as f64).abs())));
 		let tol = allow(p, j, s, 16.0);
-		if let Some(i) = values_close(&o, &reference, tol) {
+		if let Some(i) = values_close(name, &o, &reference, tol) {
 			return Err(Failure::new(format!("C08:{name}:constancy-value:{i}"), format!("{name} {cj} initialised with {:?} and fed it again: value #{i} of result #{} is {:e}, at the start it was {:e} (allowance {:e})", cs[0], j + 1, o.values()[i], reference.values()[i], tol)));
 		}
 		noise |= o.values().iter().zip(reference.values().iter()).any(|(p, q)| (*p as f64).to_bits() != (*q as f64).to_bits());
@@ -265,7 +291,7 @@ fn run_indicator(c: &IConst, st: &mut Stats) -> CaseResult {
 			smax = r.values().iter().fold(smax, |m, y| if y.is_finite() { m.max((*y as f64).abs()) } else { m });
 		}
 		let tol = allow(p, t + k, scale_of(name, &cs, t + 1).max(smax), 16.0);
-		if let Some(i) = values_close(&os, &ol, tol) {
+		if let Some(i) = values_close(name, &os, &ol, tol) {
 			// Vidya's smoothing factor is a ratio of sums of changes: on a series that is constant only up to
 			// rounding (a computed series over a flat stretch) it is decided by the noise, so two histories
 			// that differ in their rounding residues can converge at different speeds
@@ -328,11 +354,11 @@ pub fn def(tier: Tier) -> PropertyDef {
 	let max_len = tier.pick(150usize, 500);
 	for name in mgen::all_kind_names() {
 		let strat = (mgen::method_case(name, max_len), any::<u16>()).prop_map(|(m, k)| ConstCase { m, k });
-		checks.push(pt(&format!("method_{name}"), tier.pick(4000, 15000), strat, run_method));
+		checks.push(pt(&format!("method_{name}"), tier.pick(4000, 100000), strat, run_method));
 	}
 	for name in cfggen::NAMES {
 		let strat = (cfggen::config_strategy(name, GenOpts::default()), gen::candle_stream(1, tier.pick(150, 400)), any::<u16>(), 0u8..4).prop_map(|(cfg, s, k, first_shape)| IConst { cfg, s, k, first_shape });
-		checks.push(pt(&format!("indicator_{name}"), tier.pick(2500, 8000), strat, run_indicator));
+		checks.push(pt(&format!("indicator_{name}"), tier.pick(2500, 50000), strat, run_indicator));
 	}
 	PropertyDef {
 		id: "C08",
